@@ -143,6 +143,7 @@ func cmdRun(args []string) int {
 	var broken []string
 	totalValidated := 0
 	knownPrinted := map[string]bool{}
+	otherProps := map[string]int{}
 
 	for _, h := range specs {
 		cfgs := h.Configs
@@ -191,6 +192,19 @@ func cmdRun(args []string) int {
 					continue
 				}
 				seen[key] = true
+				// shared harnesses carry assertions of several properties,
+				// labelled "Cxx:..."; each check reports only its own, and
+				// panics are reported by the check that owns them (C07)
+				if v.Kind == "assert" {
+					if p := labelProp(v.Label); p != "" && p != id {
+						otherProps[p+" "+v.Label]++
+						continue
+					}
+				}
+				if v.Kind == "panic" && !chk.ReportPanics {
+					otherProps["C07 panic at "+v.Pos]++
+					continue
+				}
 				if v.Model == nil {
 					he.Inconclusive = append(he.Inconclusive, fmt.Sprintf("violation %s at %s has no model (solver unknown on model query)", v.Label, v.Pos))
 					continue
@@ -297,7 +311,7 @@ func cmdRun(args []string) int {
 	}
 
 	wall := time.Since(t0).Seconds()
-	writeEvidence(evPath, id, tier, seed, hev, samples, chk, wall, nViol, broken, map[string]interface{}{"functions_encoded": funcs, "stubs": stubs}, totalValidated)
+	writeEvidence(evPath, id, tier, seed, hev, samples, chk, wall, nViol, broken, map[string]interface{}{"functions_encoded": funcs, "stubs": stubs, "violations_owned_by_other_checks": otherProps}, totalValidated)
 	if len(broken) > 0 {
 		for _, b := range broken {
 			fmt.Printf("CHECK-BROKEN property=%s %s\n", id, b)
@@ -310,6 +324,14 @@ func cmdRun(args []string) int {
 		fmt.Printf("OK property=%s tier=%s wall=%.1fs\n", id, tier, wall)
 	}
 	return exit
+}
+
+// labelProp extracts the property id from a label of the form "Cxx:...".
+func labelProp(label string) string {
+	if len(label) >= 4 && label[0] == 'C' && label[3] == ':' && label[1] >= '0' && label[1] <= '9' && label[2] >= '0' && label[2] <= '9' {
+		return label[:3]
+	}
+	return ""
 }
 
 func normNums(s string) string {
